@@ -26,7 +26,7 @@ TagLess(a, b) == \/ ClassRank(a.cl) < ClassRank(b.cl)
 
 \* ---- normalisation: resolve tagging modes ----------------------------------
 \* Does T (looking through references, not through tags) denote an untagged CHOICE?
-IsUntaggedChoice(env, T) == Deref(env, T).k = "CHOICE"
+IsUntaggedChoice(env, T) == ChoiceLike(Deref(env, T).k)      \* (an open type is tagged EXPLICITly like a CHOICE)
 
 HasTaggedRoot(T) == \E i \in DOMAIN T.comps : T.comps[i].t.k = "TAGGED"
 
@@ -55,7 +55,7 @@ RECURSIVE OuterTags(_, _)
 OuterTags(env, T) ==
   CASE T.k = "TAGGED" -> {Tag(T.cl, T.num)}
     [] IsRef(T) -> OuterTags(env, env[T.n])
-    [] T.k = "CHOICE" -> UNION {OuterTags(env, AllComps(T)[i].t) : i \in DOMAIN AllComps(T)}
+    [] ChoiceLike(T.k) -> UNION {OuterTags(env, AllComps(T)[i].t) : i \in DOMAIN AllComps(T)}
     [] OTHER -> {UniversalTag(T)}
 
 \* the tag that the encoding of value v of type T actually starts with
@@ -63,7 +63,7 @@ RECURSIVE ValueTag(_, _, _)
 ValueTag(env, T, v) ==
   CASE T.k = "TAGGED" -> Tag(T.cl, T.num)
     [] IsRef(T) -> ValueTag(env, env[T.n], v)
-    [] T.k = "CHOICE" -> ValueTag(env, CompByName(T, AltOf(v)).t, AltVal(v))
+    [] ChoiceLike(T.k) -> ValueTag(env, CompByName(T, AltOf(v)).t, AltVal(v))
     [] OTHER -> UniversalTag(T)
 
 MinTag(S) == CHOOSE t \in S : \A u \in S : u = t \/ TagLess(t, u)
